@@ -15,6 +15,9 @@ pub enum GridKind {
     Capacity,
     Growth,
     Overflow,
+    Decoders,
+    VecGrowth,
+    BoxChains,
 }
 
 #[derive(Clone, Copy, Debug, PartialEq, Eq, Hash)]
@@ -29,7 +32,16 @@ pub enum Case {
     Grow { m: u8, wl: u8, log_v: u8 },
     /// C19: see overflow.rs
     Ovf { entry: u8, esz: u8, cnt: u8, m: u8, nonempty: bool },
+    /// C14 decoders: see decoders.rs
+    Dec { which: u8, a: u8, b: u8, c: u8 },
+    /// C17: Box conversion chains; see boxmodel.rs
+    Bx { fam: u8, build: u8, steps: u16, term: u8, fault: u8 },
+    /// C18(d): Vec/String capacity stability and growth policy; see decoders.rs
+    VGrow { kind: u8, esz: u8, n: u32 },
 }
+
+/// Inputs checked inside grid cases that loop over many inputs (decoder grids).
+pub static INPUTS: std::sync::atomic::AtomicU64 = std::sync::atomic::AtomicU64::new(0);
 
 pub const MA_LIST: [usize; 17] = [0, 1, 2, 3, 4, 5, 6, 7, 8, 9, 12, 16, 24, 32, 64, 128, 1 << 20];
 
@@ -302,10 +314,13 @@ impl Model for GridModel {
                 _ => self.run_growth::<16>(envp, wl, log_v, &mut v),
             },
             Case::Ovf { entry, esz, cnt, m, nonempty } => crate::overflow::run_case(envp, entry, esz, cnt, m, nonempty, &mut v),
+            Case::Dec { which, a, b, c } => crate::decoders::run_dec(envp, which, a, b, c, self.thorough, &mut v),
+            Case::VGrow { kind, esz, n } => crate::decoders::run_vgrow(envp, kind, esz, n, &mut v),
+            Case::Bx { fam, build, steps, term, fault } => crate::boxmodel::run_case(envp, fam, build, steps, term, fault, &mut v),
         };
         // leftovers: every case must have released what it acquired
         let left = unsafe { (*envp).live_count(0) };
-        if left != 0 && !matches!(case, Case::Ovf { .. }) {
+        if left != 0 && !matches!(case, Case::Ovf { .. } | Case::Bx { .. }) {
             viol(&mut v, 3, "leak_after_drop", "leak_after_drop/grid".into(), format!("{:?}: {left} block(s) still held after the arena was dropped", case));
         }
         if crate::util::static_dirty() {
@@ -342,6 +357,8 @@ impl Model for GridModel {
                 serde_json::json!({"case": format!("{:?}", c), "min_align": MA_LIST[mi as usize], "constructor": cn})
             }
             Case::Ovf { entry, esz, cnt, m, nonempty } => crate::overflow::describe(entry, esz, cnt, m, nonempty),
+            Case::Dec { which, a, b, c } => crate::decoders::describe_dec(which, a, b, c, self.thorough),
+            Case::Bx { fam, build, steps, term, fault } => crate::boxmodel::describe(fam, build, steps, term, fault),
             _ => serde_json::json!({"case": format!("{:?}", c)}),
         }
     }
@@ -416,6 +433,9 @@ impl GridModel {
                 }
             }
             GridKind::Overflow => c = crate::overflow::cases(t),
+            GridKind::Decoders => c = crate::decoders::dec_cases(t),
+            GridKind::VecGrowth => c = crate::decoders::vgrow_cases(t),
+            GridKind::BoxChains => c = crate::boxmodel::cases(t),
         }
         c
     }
